@@ -778,12 +778,14 @@ var _ = ast.Inspect
 // C11
 
 func propC11(w *World, r *Report, tier string) {
-	r.Explanation = "security.Count holds one uint32 and every method is straight-line, so E2 computes each method's exact transfer function on a " +
-		"fully symbolic state and compares it with the specification on the abstract state overflow(16)||sqn(8) with a zero high octet. The invariant " +
-		"'bits 24..31 are zero' is shown inductive (zero value; preserved by every method). Every history is a composition of these methods, so all " +
-		"histories from all 2^24 states are covered without enumerating any."
-	r.Assumptions = []string{"the counter is reached only through its methods (the field is unexported)"}
-	r.Trusted = []string{"go/ssa construction", "bit-term simplifier (ripple-carry adder normal form) in checker/bitflow.go"}
+	r.Explanation = "Representation-independent: the abstract counter value is alpha(state) = the 24 low bits returned by Get() on a fully symbolic state; E2 shows alpha " +
+		"is a pure bit selection of the representation and takes 'every representation bit outside alpha is zero' as the invariant (true of the zero value). " +
+		"For every exported method the exact symbolic post-state is computed (straight-line code, or loops with compile-time trip counts and if-converted branches) " +
+		"and alpha(post) is compared — as Boolean functions, with a BDD — with the specification on overflow(16)||sqn(8): SetSQN/SetOverflow/Set replace their lane, " +
+		"SQN/Overflow/Get read theirs without changing alpha, AddOne is +1 modulo 2^24; the invariant is shown preserved. Every history is a composition of these " +
+		"methods, so all histories from all 2^24 states are covered by induction."
+	r.Assumptions = []string{"the counter is reached only through its methods (all fields unexported, checked)"}
+	r.Trusted = []string{"go/ssa construction", "bit-term interpreter (checker/bitflow.go) and ROBDD equivalence (checker/bdd.go)"}
 	r.Exhaustive = true
 	sp := w.Pkg("security")
 	tn, _ := sp.Types.Scope().Lookup("Count").(*types.TypeName)
@@ -791,176 +793,248 @@ func propC11(w *World, r *Report, tier string) {
 		panic(anchorError("security.Count"))
 	}
 	stt, ok := tn.Type().Underlying().(*types.Struct)
-	if !ok || stt.NumFields() != 1 || !isBasic(stt.Field(0).Type(), types.Uint32) {
-		r.Fail("cnt.shape", "security.Count", "fields", tn.Pos(), "Count is not a single uint32 any more: the abstract state of the rule does not apply", nil)
+	if !ok {
+		r.Fail("cnt.shape", "security.Count", "struct", tn.Pos(), "Count is not a struct", nil)
 		return
 	}
-	cell := "." + stt.Field(0).Name()
-	if stt.Field(0).Exported() {
-		r.Fail("cnt.shape", "security.Count", "exported", tn.Pos(), "counter field is exported: histories can bypass the methods", nil)
-	} else {
-		r.OK("cnt.shape")
+	// enumerate representation cells
+	type cell struct {
+		path string
+		w    int
 	}
+	var cells []cell
+	okShape := true
+	var enum func(t types.Type, path string)
+	enum = func(t types.Type, path string) {
+		if wd, _, ok := typeWidth(t); ok {
+			cells = append(cells, cell{path, wd})
+			return
+		}
+		switch u := t.Underlying().(type) {
+		case *types.Array:
+			if u.Len() > 64 {
+				okShape = false
+				return
+			}
+			for i := int64(0); i < u.Len(); i++ {
+				enum(u.Elem(), fmt.Sprintf("%s[%d]", path, i))
+			}
+		case *types.Struct:
+			for i := 0; i < u.NumFields(); i++ {
+				enum(u.Field(i).Type(), path+"."+u.Field(i).Name())
+			}
+		default:
+			okShape = false
+		}
+	}
+	for i := 0; i < stt.NumFields(); i++ {
+		if stt.Field(i).Exported() {
+			r.Fail("cnt.shape", "security.Count", "exported field "+stt.Field(i).Name(), tn.Pos(), "a counter field is exported: histories can bypass the methods", nil)
+		}
+		enum(stt.Field(i).Type(), "."+stt.Field(i).Name())
+	}
+	if !okShape || len(cells) == 0 {
+		r.Fail("cnt.shape", "security.Count", "representation", tn.Pos(), "the representation is not a fixed set of integer cells: the rule does not apply", nil)
+		return
+	}
+	r.OK("cnt.shape")
+	getF := w.LookupFunc("security", "Count.Get")
+	if getF == nil {
+		panic(anchorError("security.(*Count).Get"))
+	}
+	getFn := w.SSAFunc(getF)
+	mkState := func(it *Interp, zeroOutside map[string]bool) (*state, *MemObj, Ptr) {
+		st := it.NewState()
+		o := it.NewObj("c", false)
+		st.mem[o] = map[string]Value{}
+		for _, c := range cells {
+			bv := it.SrcBV("c"+c.path, c.w)
+			if zeroOutside != nil {
+				for b := 0; b < c.w; b++ {
+					if !zeroOutside[srcKey("c"+c.path, b)] {
+						bv.B[b] = it.T.zero
+					}
+				}
+			}
+			st.mem[o][c.path] = bv
+		}
+		return st, o, Ptr{Obj: o}
+	}
+	// alpha on a fully symbolic state
+	it0 := NewInterp(w)
+	st0, _, recv0 := mkState(it0, nil)
+	a0, okA := it0.Call(getFn, []Value{recv0}, st0, 0).(BV)
+	support := map[string]bool{}
+	pure := okA && len(it0.Unsup) == 0 && a0.W >= 24
+	if pure {
+		for i := 0; i < a0.W; i++ {
+			n := a0.B[i]
+			if i >= 24 {
+				// bits above the 24-bit value: constant zero, or representation bits that the invariant keeps at zero
+				if n.op != opZero && n.op != opSrc {
+					pure = false
+				}
+				continue
+			}
+			if n.op != opSrc || support[srcKey(n.src, n.idx)] {
+				pure = false
+				break
+			}
+			support[srcKey(n.src, n.idx)] = true
+		}
+	}
+	if !pure {
+		r.Fail("cnt.read", FuncName(getF), "alpha", getF.Pos(), fmt.Sprintf("Get() is not a selection of 24 distinct representation bits zero-extended to 32 (value below 2^24): %v %v", a0, it0.Unsup), nil)
+		return
+	}
+	r.OK("cnt.read")
 	type spec struct {
 		name   string
-		params []int // widths
-		// post(i, pre bits, params) -> expected node for state bit i ; nil = no write expected
-		post func(it *Interp, pre BV, ps []BV) BV
-		ret  func(it *Interp, pre BV, ps []BV) *BV
+		params []int
+		post   func(it *Interp, pre BV, ps []BV) BV // on the 24-bit abstract value
+		ret    func(it *Interp, pre BV, ps []BV) *BV
 	}
 	keep := func(it *Interp, pre BV, ps []BV) BV { return pre }
-	specs := []spec{
-		{"SetSQN", []int{8}, func(it *Interp, pre BV, ps []BV) BV {
-			o := BV{W: 32, B: append([]*Node{}, pre.B...)}
+	specs := map[string]spec{
+		"SetSQN": {"SetSQN", []int{8}, func(it *Interp, pre BV, ps []BV) BV {
+			o := BV{W: 24, B: append([]*Node{}, pre.B...)}
 			copy(o.B[0:8], ps[0].B)
 			return o
 		}, nil},
-		{"SetOverflow", []int{16}, func(it *Interp, pre BV, ps []BV) BV {
-			o := BV{W: 32, B: append([]*Node{}, pre.B...)}
+		"SetOverflow": {"SetOverflow", []int{16}, func(it *Interp, pre BV, ps []BV) BV {
+			o := BV{W: 24, B: append([]*Node{}, pre.B...)}
 			copy(o.B[8:24], ps[0].B)
 			return o
 		}, nil},
-		{"Set", []int{16, 8}, func(it *Interp, pre BV, ps []BV) BV {
-			o := BV{W: 32, B: append([]*Node{}, pre.B...)}
+		"Set": {"Set", []int{16, 8}, func(it *Interp, pre BV, ps []BV) BV {
+			o := BV{W: 24, B: make([]*Node, 24)}
 			copy(o.B[8:24], ps[0].B)
 			copy(o.B[0:8], ps[1].B)
 			return o
 		}, nil},
-		{"SQN", nil, keep, func(it *Interp, pre BV, ps []BV) *BV { v := BV{W: 8, B: pre.B[0:8]}; return &v }},
-		{"Overflow", nil, keep, func(it *Interp, pre BV, ps []BV) *BV { v := BV{W: 16, B: pre.B[8:24]}; return &v }},
-		{"Get", nil, func(it *Interp, pre BV, ps []BV) BV {
-			o := BV{W: 32, B: append([]*Node{}, pre.B...)}
-			for i := 24; i < 32; i++ {
-				o.B[i] = it.T.zero
-			}
-			return o
-		}, func(it *Interp, pre BV, ps []BV) *BV {
-			o := BV{W: 32, B: append([]*Node{}, pre.B...)}
+		"SQN":      {"SQN", nil, keep, func(it *Interp, pre BV, ps []BV) *BV { v := BV{W: 8, B: pre.B[0:8]}; return &v }},
+		"Overflow": {"Overflow", nil, keep, func(it *Interp, pre BV, ps []BV) *BV { v := BV{W: 16, B: pre.B[8:24]}; return &v }},
+		"Get": {"Get", nil, keep, func(it *Interp, pre BV, ps []BV) *BV {
+			o := BV{W: 32, B: make([]*Node, 32)}
+			copy(o.B, pre.B)
 			for i := 24; i < 32; i++ {
 				o.B[i] = it.T.zero
 			}
 			return &o
 		}},
-		{"AddOne", nil, func(it *Interp, pre BV, ps []BV) BV {
-			// ModAdd(count, 1, 24) on the 24-bit state
-			s := it.add(BV{W: 24, B: pre.B[0:24]}, it.constBV(1, 24), it.T.zero)
-			o := BV{W: 32, B: make([]*Node, 32)}
-			copy(o.B, s.B)
-			for i := 24; i < 32; i++ {
-				o.B[i] = it.T.zero
-			}
-			return o
+		"AddOne": {"AddOne", nil, func(it *Interp, pre BV, ps []BV) BV {
+			return it.add(pre, it.constBV(1, 24), it.T.zero)
 		}, nil},
-	}
-	// every method of *Count must be covered by a spec (a new mutator would escape the induction)
-	known := map[string]bool{"maskTo24Bits": true}
-	for _, s := range specs {
-		known[s.name] = true
 	}
 	ms := types.NewMethodSet(types.NewPointer(tn.Type()))
 	for i := 0; i < ms.Len(); i++ {
-		n := ms.At(i).Obj().Name()
+		m := ms.At(i).Obj().(*types.Func)
+		if !m.Exported() {
+			continue
+		}
 		r.Site("cnt.methods")
-		if !known[n] {
-			r.Fail("cnt.methods", "security.(*Count)."+n, "unspecified", ms.At(i).Obj().Pos(), "method "+n+" has no specification in the rule: histories through it are not covered", nil)
+		fname := FuncName(m)
+		r.Fn(fname)
+		s, ok := specs[m.Name()]
+		if !ok {
+			r.Fail("cnt.methods", fname, "unspecified", m.Pos(), "exported method "+m.Name()+" has no specification in the rule: histories through it are not covered", nil)
+			continue
+		}
+		fn := w.SSAFunc(m)
+		if fn == nil || len(fn.Params) != 1+len(s.params) {
+			r.Fail("cnt.methods", fname, "signature", m.Pos(), "unexpected signature", nil)
+			continue
+		}
+		it := NewInterp(w)
+		st, o, recv := mkState(it, support)
+		// alpha(pre)
+		pre := BV{W: 24, B: make([]*Node, 24)}
+		{
+			stc := st.clone()
+			a, _ := it.Call(getFn, []Value{recv}, stc, 0).(BV)
+			if a.W < 24 {
+				r.Fail("cnt.transfer", fname, "alpha(pre)", m.Pos(), "cannot evaluate Get() on the pre-state", nil)
+				continue
+			}
+			copy(pre.B, a.B[0:24])
+		}
+		args := []Value{recv}
+		var ps []BV
+		for k, wd := range s.params {
+			p := it.SrcBV(fmt.Sprintf("p%d", k), wd)
+			ps = append(ps, p)
+			args = append(args, p)
+		}
+		res := it.Call(fn, args, st, 0)
+		if len(it.Unsup) > 0 {
+			r.Fail("cnt.transfer", fname, "fragment", m.Pos(), fmt.Sprintf("outside the modelled fragment: %v", it.Unsup), nil)
+			continue
+		}
+		// invariant: representation bits outside alpha stay zero
+		inv := true
+		for _, c := range cells {
+			bv, _ := st.mem[o][c.path].(BV)
+			for b := 0; b < bv.W; b++ {
+				if !support[srcKey("c"+c.path, b)] && !it.T.Equiv(bv.B[b], it.T.zero) {
+					inv = false
+				}
+			}
+		}
+		if !inv {
+			r.Fail("cnt.inv24", fname, "bits outside the 24-bit value", m.Pos(), "method does not preserve 'value < 2^24' (a representation bit outside the counter value can become 1)", nil)
+		} else {
+			r.OK("cnt.inv24")
+		}
+		// alpha(post)
+		stp := st.clone()
+		ap, okp := it.Call(getFn, []Value{recv}, stp, 0).(BV)
+		want := s.post(it, pre, ps)
+		okT := okp && ap.W >= 24
+		diff := ""
+		if okT {
+			for b := 0; b < 24; b++ {
+				if !it.T.Equiv(ap.B[b], want.B[b]) {
+					okT = false
+					diff = fmt.Sprintf("value bit %d after the call is %s, specification %s", b, trunc(ap.B[b].String(), 160), trunc(want.B[b].String(), 160))
+					break
+				}
+			}
+		}
+		if !okT {
+			rule := "cnt.transfer"
+			switch m.Name() {
+			case "SetSQN":
+				rule = "cnt.setsqn"
+			case "SetOverflow":
+				rule = "cnt.setovf"
+			case "AddOne":
+				rule = "cnt.addone"
+			case "SQN", "Overflow", "Get":
+				rule = "cnt.read"
+			}
+			r.Fail(rule, fname, "post-state", m.Pos(), "transfer function differs from the specification: "+diff, nil)
+		} else {
+			r.OK("cnt.transfer")
+			if len(r.Samples) < 8 {
+				r.Sample(map[string]any{"rule": "cnt.transfer", "method": m.Name(), "alpha_post_msb_first": trunc(BV{W: 24, B: ap.B[0:24]}.String(), 400)})
+			}
+		}
+		if s.ret != nil {
+			wr := s.ret(it, pre, ps)
+			rb, okr := res.(BV)
+			if !okr || !it.T.EquivBV(rb, *wr) {
+				r.Fail("cnt.read", fname, "result", m.Pos(), fmt.Sprintf("returns %v, specification %v", res, *wr), nil)
+			} else {
+				r.OK("cnt.read")
+			}
 		}
 	}
 	r.Expect("cnt.methods", 7)
-	for _, s := range specs {
-		f := w.LookupFunc("security", "Count."+s.name)
-		if f == nil {
-			r.Fail("anchor", "security.(*Count)."+s.name, "missing", token.NoPos, "method not found", nil)
-			continue
-		}
-		fname := FuncName(f)
-		r.Fn(fname)
-		fn := w.SSAFunc(f)
-		for _, mode := range []string{"invariant", "arbitrary"} {
-			it := NewInterp(w)
-			st := it.NewState()
-			o, recv := it.SymbolicObj("c")
-			pre := it.SrcBV("c"+cell, 32)
-			if mode == "invariant" {
-				for i := 24; i < 32; i++ {
-					pre.B[i] = it.T.zero
-				}
-			}
-			st.mem[o] = map[string]Value{cell: pre}
-			args := []Value{recv}
-			var ps []BV
-			for k, wd := range s.params {
-				p := it.SrcBV(fmt.Sprintf("p%d", k), wd)
-				ps = append(ps, p)
-				args = append(args, p)
-			}
-			res := it.Call(fn, args, st, 0)
-			if len(it.Unsup) > 0 {
-				r.Fail("cnt.transfer", fname, mode, f.Pos(), fmt.Sprintf("outside the modelled fragment: %v", it.Unsup), nil)
-				continue
-			}
-			post, _ := st.mem[o][cell].(BV)
-			want := s.post(it, pre, ps)
-			if mode == "invariant" {
-				// transfer function equals the specification on the abstract 24-bit state
-				if !bvEqual(post, want) {
-					d := ""
-					for i := 0; i < 32; i++ {
-						if post.W == 32 && post.B[i] != want.B[i] {
-							d = fmt.Sprintf("state bit %d is %s, specification %s", i, post.B[i], want.B[i])
-							break
-						}
-					}
-					r.Fail("cnt.transfer", fname, "post-state", f.Pos(), "transfer function differs from the specification: "+d, nil)
-				} else {
-					r.OK("cnt.transfer")
-				}
-				inv := post.W == 32
-				for i := 24; i < 32 && inv; i++ {
-					if post.B[i] != it.T.zero {
-						inv = false
-					}
-				}
-				if !inv {
-					r.Fail("cnt.inv24", fname, "bits24-31", f.Pos(), "method does not preserve 'value < 2^24'", nil)
-				} else {
-					r.OK("cnt.inv24")
-				}
-				if s.ret != nil {
-					wr := s.ret(it, pre, ps)
-					if !bvEqual(res, *wr) {
-						r.Fail("cnt.read", fname, "result", f.Pos(), fmt.Sprintf("returns %v, specification %v", res, *wr), nil)
-					} else {
-						r.OK("cnt.read")
-					}
-					// reads never change the value (under the invariant)
-					if !bvEqual(post, pre) {
-						r.Fail("cnt.read", fname, "read-only", f.Pos(), "a read changes the counter value", nil)
-					} else {
-						r.OK("cnt.read")
-					}
-				}
-				if len(r.Samples) < 8 {
-					r.Sample(map[string]any{"rule": "cnt.transfer", "method": s.name, "post_state_msb_first": post.String()})
-				}
-			} else {
-				// frame facts on an arbitrary 32-bit state: lanes not owned by the method keep their bits
-				switch s.name {
-				case "SetSQN":
-					for i := 8; i < 32; i++ {
-						if post.B[i] != pre.B[i] {
-							r.Fail("cnt.setsqn", fname, "frame", f.Pos(), fmt.Sprintf("SetSQN changes bit %d (overflow part)", i), nil)
-						}
-					}
-					r.OK("cnt.setsqn")
-				case "SetOverflow":
-					for i := 0; i < 8; i++ {
-						if post.B[i] != pre.B[i] {
-							r.Fail("cnt.setovf", fname, "frame", f.Pos(), fmt.Sprintf("SetOverflow changes bit %d (sequence number)", i), nil)
-						}
-					}
-					r.OK("cnt.setovf")
-				}
-			}
-		}
+}
+
+func trunc(s string, n int) string {
+	if len(s) > n {
+		return s[:n] + "…"
 	}
+	return s
 }
